@@ -200,3 +200,6 @@ pub fn channel_ops_start() {
 pub fn channel_ops() -> HashMap<usize, (u64, u64)> {
     CHANNEL_OPS.lock().unwrap().clone().unwrap_or_default()
 }
+
+pub use crate::ports::verif_broadcaster::{VQueryBroadcaster, VSlot};
+pub use crate::util::cached_rw_lock::verif::VCachedRwLock;
